@@ -20,16 +20,19 @@ def coords (k : ZMod 31) : Nat × Nat := table.getD k.val (0, 0)
 
 /-- the non-identity point with the given coordinates, if any -/
 def find (x y : Nat) : Option (ZMod 31) :=
-  ((List.range 31).find? (fun k => k != 0 && table.getD k (0, 0) == (x, y))).map (fun k => (k : ZMod 31))
+  ((List.range 31).find? (fun k => k != 0 && table.getD k (0, 0) == (x, y))).map (Nat.cast : Nat → ZMod 31)
+
+/-- the non-identity point with the given x-coordinate and y parity, if any -/
+def lift (x : Nat) (odd : Bool) : Option (ZMod 31) :=
+  ((List.range 31).find? (fun k => k != 0 && (table.getD k (0, 0)).1 == x &&
+      ((table.getD k (0, 0)).2 % 2 == 1) == odd)).map (Nat.cast : Nat → ZMod 31)
 
 @[reducible] def toy : Curve where
   Pt := ZMod 31
   p := 43
   n := 31
   isZero := fun P => P == 0
-  liftX := fun x odd =>
-    ((List.range 31).find? (fun k => k != 0 && (table.getD k (0, 0)).1 == x &&
-        ((table.getD k (0, 0)).2 % 2 == 1) == odd)).map (fun k => (k : ZMod 31))
+  liftX := lift
   lincomb := fun u1 u2 P => (u1 : ZMod 31) + (u2 : ZMod 31) * P
   ofXY := find
   toXY := coords
@@ -65,10 +68,9 @@ theorem toy_laws : CurveLaws toy where
     simp
   lift_some := by
     intro x odd P h
-    replace h : ((List.range 31).find? (fun k => k != 0 && (table.getD k (0, 0)).1 == x &&
-        ((table.getD k (0, 0)).2 % 2 == 1) == odd)).map (fun k => ((k : Nat) : ZMod 31)) = some P := h
-    rw [Option.map_eq_some_iff] at h
-    obtain ⟨k, hk, hP⟩ := h
+    replace h : lift x odd = some P := h
+    unfold lift at h
+    obtain ⟨k, hk, hP⟩ := Option.map_eq_some_iff.mp h
     have hmem := List.find?_some hk
     have hk31 : k < 31 := List.mem_range.mp (List.mem_of_find?_eq_some hk)
     simp only [Bool.and_eq_true, beq_iff_eq, bne_iff_ne, ne_eq] at hmem
@@ -98,10 +100,9 @@ theorem toy_laws : CurveLaws toy where
     decide +kernel
   ofXY_some := by
     intro x y P h
-    replace h : ((List.range 31).find? (fun k => k != 0 && table.getD k (0, 0) == (x, y))).map
-        (fun k => ((k : Nat) : ZMod 31)) = some P := h
-    rw [Option.map_eq_some_iff] at h
-    obtain ⟨k, hk, hP⟩ := h
+    replace h : find x y = some P := h
+    unfold find at h
+    obtain ⟨k, hk, hP⟩ := Option.map_eq_some_iff.mp h
     have hmem := List.find?_some hk
     have hk31 : k < 31 := List.mem_range.mp (List.mem_of_find?_eq_some hk)
     simp only [Bool.and_eq_true, beq_iff_eq, bne_iff_ne, ne_eq] at hmem
